@@ -13,7 +13,9 @@ quick tier
   h_assoc_<S1>_<S2>_<S3>      (A*B)*C == A*(B*C): selected triples
 tier=thorough
   h_no_L<len>_P<hex>_M3       batches: prefix P followed by every choice of the last (up to) two factors over 3 modes
-                              = ALL strings of length <= 4 over 3 modes; selected strings of length 5 and 6
+                              = ALL strings of length <= 4 over 3 modes;
+  h_no_L5_P<hex>_M2           ALL strings of length 5 over 2 modes (prefix of 3 factors, every choice of the last two)
+  h_no_L5_*, h_no_L6_*        selected strings of length 5 and 6 over 3 modes
   h_mul_<S1>_x_all<l2>_M2     S1 (every string of length <= 2 over 2 modes) times every string of length l2 <= 2 over 2 modes
   h_comm_*                    the remaining pairs of single factors over 3 modes
 """
@@ -109,6 +111,7 @@ def generate():
     out += no_batch(1, (), 3); out += no_batch(2, (), 3)
     for p in strings(1, 3): out += no_batch(3, p, 3)
     for p in strings(2, 3): out += no_batch(4, p, 3)
+    for p in strings(3, 2): out += no_batch(5, p, 2)          # every string of length 5 over 2 modes
     for x in SEL56: out += no_single(H(x), 'thorough', 300)
     for s1 in [s for L in (0, 1, 2) for s in strings(L, 2)]:
         for l2 in (1, 2): out += mul_batch(s1, l2, 2)
